@@ -338,10 +338,12 @@ impl Prop for C18 {
         let work = match rng.below(10) {
             0..=5 => {
                 let big = thorough && rng.chance(1, 60);
+                // inputs beyond 64 KiB (the detection prefix, one BGZF block, one pipe buffer)
+                let mid = !big && rng.chance(1, 40);
                 let p = CallSetParams {
                     allow_no_gt: true,
                     allow_ploidy: rng.chance(1, 10),
-                    ..CallSetParams::standard(if big { 40 } else { 8 }, if big { 3000 } else { 12 })
+                    ..CallSetParams::standard(if big { 40 } else if mid { 30 } else { 8 }, if big { 3000 } else if mid { 900 } else { 12 })
                 };
                 let (callset, cfg) = gen::gen_callset(&mut rng, &p);
                 let container = *rng.pick(&[
@@ -385,11 +387,20 @@ impl Prop for C18 {
                     }
                 }
             }
-            _ => Work::Write {
-                spec: gen::gen_spec(&mut rng, 4, 5, 96, false),
-                npy: rng.chance(1, 2),
-                precision: rng.range(0, 17),
-            },
+            _ => {
+                let spec = if rng.chance(1, 8) {
+                    // more values than fit any internal block of the writers
+                    let n = *rng.pick(&[1025usize, 2049, 3000, 4097]);
+                    Spec::from_vals(vec![n], &(0..n).map(|i| (i % 997) as f64 + 0.25).collect::<Vec<_>>())
+                } else {
+                    gen::gen_spec(&mut rng, 4, 5, 96, false)
+                };
+                Work::Write {
+                    spec,
+                    npy: rng.chance(1, 2),
+                    precision: rng.range(0, 17),
+                }
+            }
         };
         let len = match &work {
             Work::Write { spec, npy, precision } => {
@@ -944,6 +955,7 @@ fn shrink_work(work: &Work) -> Vec<Work> {
                         blocks: vec![],
                         eof_marker: true,
                         level: 6,
+                    bcf_minor: 0,
                     },
                     threads: *threads,
                 });
